@@ -14,11 +14,15 @@
      DepRule     = "started"  an operation starts when its producers have merely started -> NoBadRead
      CreateMode  = "w"        array creation truncates existing data            -> NoWipe
      ResumeRule  = "any"      resume trusts an array that has SOME chunk          -> SkipOnlyComplete / FinalGood
+     ResumeRule  = "count"    resume compares zarr's nchunks_initialized (stored keys x chunks per key) with the declared
+                              number of chunks: for a SHARDED array with a ragged edge the two units differ (finding F27:
+                              cubed before its repair)                           -> SkipOnlyComplete / NoRecomputeOfComplete
    A plan whose Writes give one key to two tasks (misaligned layout: read-modify-write) violates SingleWriter and,
    dynamically, FinalGood (lost update). *)
 EXTENDS Integers, Sequences, FiniteSets, TLC
 CONSTANTS Ops, Create, Arrays, Lazy, Prod, NT, Reads, Writes, Sched, MaxExec, MaxDup, MayCrash,
-          CreateFirst, DepRule, CreateMode, ResumeRule
+          CreateFirst, DepRule, CreateMode, ResumeRule,
+          NChunks, CPS   \* per array: declared number of chunks, and chunks counted per stored key (1, or chunks per shard)
 VARIABLES meta,    \* arrays whose metadata exists in storage
           chunks,  \* key -> None | Old | <<op, set of tasks whose part is present, "good"|"bad">>
           ost,     \* op -> "idle" | "run" | "done" | "skip"
@@ -109,8 +113,9 @@ EndOp(o) == /\ ost[o] = "run" /\ won[o] = Tasks(o) /\ ost' = [ost EXCEPT ![o] = 
 Crash == /\ MayCrash /\ phase = "first" /\ phase' = "crashed" /\ ex' = {}
          /\ UNCHANGED <<meta, chunks, ost, won, nexec, ev>>
 \* plan.py already_computed: every output has metadata and ALL its chunks (nchunks_initialized = nchunks)
-Complete(a) == a \in meta /\ IF ResumeRule = "all" THEN \A k \in KeysOf(a) : chunks[k] # None
-                                                   ELSE \E k \in KeysOf(a) : chunks[k] # None
+Complete(a) == a \in meta /\ CASE ResumeRule = "all" -> \A k \in KeysOf(a) : chunks[k] # None
+                                 [] ResumeRule = "any" -> \E k \in KeysOf(a) : chunks[k] # None
+                                 [] OTHER -> Cardinality({k \in KeysOf(a) : chunks[k] # None}) * CPS[a] = NChunks[a]
 Resume == /\ phase = "crashed" /\ phase' = "resumed"
           /\ ost' = [o \in Ops |-> IF o # Create /\ \A a \in Outs(o) : Complete(a) THEN "skip" ELSE "idle"]
           /\ won' = [o \in Ops |-> {}] /\ nexec' = [o \in Ops |-> [t \in Tasks(o) |-> 0]] /\ ev' = <<>>
